@@ -281,4 +281,35 @@ n1 := FIND(s, 'cd');\nn2 := FIND(s, 'xz');\nn3 := LEN(MID(s, one, INT#6)) + LEN(
             (0, "Main.n3", "INT#Int(1)"),
         ],
     },
+    Cell {
+        // comparisons are by value in the operands' own type: unsigned values above the signed maximum of the same width,
+        // the most negative signed value (both reached by computation: they have no literal form)
+        name: "comparisons-at-type-limits",
+        text: "PROGRAM Main\nVAR ul : ULINT; ul2 : ULINT; ud : UDINT := UDINT#4294967295; ui : UINT := UINT#65535; us : USINT := USINT#255; li : LINT; lw : LWORD;\n\
+ b1 : BOOL; b2 : BOOL; b3 : BOOL; b4 : BOOL; b5 : BOOL; b6 : BOOL; b7 : BOOL; b8 : BOOL; b9 : BOOL; b10 : BOOL; b11 : BOOL; b12 : BOOL; b13 : BOOL; b14 : BOOL; b15 : BOOL; m : ULINT; END_VAR\n\
+ul := ULINT#9223372036854775807;\nul := ul + ULINT#1000;\nul2 := ul + ULINT#1;\n\
+b1 := ul < ul2;\nb2 := ul2 > ul;\nb3 := ul = ul;\nb4 := ul <> ul2;\nb5 := ul >= ul2;\nb6 := ul2 <= ul;\nb7 := ul > ULINT#5;\n\
+b8 := ud > UDINT#2147483648;\nb9 := ui >= UINT#32768;\nb10 := us > USINT#128;\nb11 := ul = ULINT#0;\n\
+li := LINT#-9223372036854775807;\nli := li - LINT#1;\nb12 := li < LINT#0;\nb13 := li <= li;\n\
+b14 := ULINT#5 < ul;\nb15 := ul2 = ul;\nm := MAX(ul, ULINT#7);\nEND_PROGRAM\n",
+        cycles: 1,
+        expect: &[
+            (0, "Main.b1", "BOOL#Bool(true)"),
+            (0, "Main.b2", "BOOL#Bool(true)"),
+            (0, "Main.b3", "BOOL#Bool(true)"),
+            (0, "Main.b4", "BOOL#Bool(true)"),
+            (0, "Main.b5", "BOOL#Bool(false)"),
+            (0, "Main.b6", "BOOL#Bool(false)"),
+            (0, "Main.b7", "BOOL#Bool(true)"),
+            (0, "Main.b8", "BOOL#Bool(true)"),
+            (0, "Main.b9", "BOOL#Bool(true)"),
+            (0, "Main.b10", "BOOL#Bool(true)"),
+            (0, "Main.b11", "BOOL#Bool(false)"),
+            (0, "Main.b12", "BOOL#Bool(true)"),
+            (0, "Main.b13", "BOOL#Bool(true)"),
+            (0, "Main.b14", "BOOL#Bool(true)"),
+            (0, "Main.b15", "BOOL#Bool(false)"),
+            (0, "Main.m", "ULINT#ULInt(9223372036854776807)"),
+        ],
+    },
 ];
